@@ -668,7 +668,7 @@ def corpus():
 
 # ----------------------------------------------------------------- the check
 def run(ck: common.Check):
-    ck.prove(["GeffProps.C15", "GeffProps.C15Links"])
+    ck.prove(["GeffProps.C15", "GeffProps.C15Links", "GeffProps.C15Cli"])
     ck.rule = ("cases = corpus + 13 lineage templates (single frame, one-row table, gaps, late starts, 1/2/3 "
                "children, chains, two generations) x {2-D,3-D} x segmentation target {none,path,str,store} x "
                "tczyx x zarr_format x {fresh, overwrite, refuse} (all combinations in thorough, 2 sampled per "
